@@ -51,10 +51,10 @@ var (
 	verifC09Key   [16]byte
 	verifC09Enc   [32]uint32
 	verifC09Dec   [32]uint32
-	verifC09Src   [1400]byte
-	verifC09Dst   [1400]byte
+	verifC09Src   [8500]byte
+	verifC09Dst   [8500]byte
 	verifC09Nonce [320]byte
-	verifC09Aad   [1400]byte
+	verifC09Aad   [8500]byte
 	verifC09Temp  [128]byte
 	verifC09H     [16]byte
 	verifC09Tag   [16]byte
